@@ -109,6 +109,10 @@ def Needed.incr (n : Needed) (u : Uid) : Needed :=
 def Needed.decr (n : Needed) (u : Uid) : Needed :=
   (n.map (fun e => if e.1 == u then (u, e.2 - 1) else e)).filter (fun e => e.2 != 0 || e.1 != u)
 
+/-- the visible columns of both operands of a distinct union -/
+def unionCols (c rt : Ast) (distinct : Bool) : List Uid :=
+  if distinct then (Cache.fromAst c).uuidToName.map (·.1) ++ (Cache.fromAst rt).uuidToName.map (·.1) else []
+
 /-- the entry of a select list that carries the label `n` (union: the right side is re-selected by name) -/
 def pickByName (sel : List Uid) (d : Defs) (n : String) : Except CErr Uid :=
   match sel.find? (fun u => d.name u == n) with
@@ -221,7 +225,10 @@ def compile : Ast → Needed → Except CErr (Compiled × Needed)
       if !r.query.partitionBy.isEmpty || !r.query.groupBy.isEmpty then throw (.assertion "right side grouped")
       let q := { l.query with where_ := where_, select := l.query.select ++ r.query.select }
       pure (⟨.join l.src r.src onC how, q, defs⟩, (uidsOfVerb nd).foldl Needed.decr needed3)
-  | .union _ c rt distinct, needed => do
+  | .union _ c rt distinct, needed0 => do
+      -- UNION removes duplicates over all columns of its operands: they are all needed below (repair of D80)
+      let ucols := unionCols c rt distinct
+      let needed := ucols.foldl Needed.incr needed0
       let (l, needed) ← compile c needed
       let (r, needed) ← compile rt needed
       let lnames := l.query.select.map l.defs.name
@@ -232,7 +239,7 @@ def compile : Ast → Needed → Except CErr (Compiled × Needed)
       if !r.query.partitionBy.isEmpty || !r.query.groupBy.isEmpty then throw (.assertion "right side grouped")
       let src := Src.union l.src l.query l.defs r.src { r.query with select := rsel } r.defs distinct l.query.select
       let defs : Defs := l.query.select.map (fun u => (u, l.defs.name u, Expr.col u .null .elementWise))
-      pure (⟨src, { select := l.query.select, partitionBy := [] }, defs⟩, needed)
+      pure (⟨src, { select := l.query.select, partitionBy := [] }, defs⟩, ucols.foldl Needed.decr needed)
 
 /-! ### evaluation -/
 
